@@ -16,6 +16,12 @@ func (e *Engine) ifaceFacts(iface, method string, args []Val, res []Val, reach s
 		return "false"
 	}
 	switch {
+	case strings.HasSuffix(iface, "storage.Storage") && (method == "GetObject" || method == "HeadObject") && len(res) >= 2:
+		// storage.Storage: a successful GetObject / HeadObject returns the object
+		if pv, ok := res[0].(PtrV); ok {
+			e.fact(imp(and(reach, errNil(len(res)-1)), not(pv.Nil)))
+			e.trustedUsed["storage.Storage.GetObject / HeadObject: err == nil ==> the returned *Object is not nil"] = true
+		}
 	case method == "Seek" && len(res) == 2:
 		// io.Seeker: a successful Seek returns a non-negative offset
 		if r0, ok := res[0].(IntV); ok {
